@@ -1,25 +1,299 @@
-//! C30 — not built yet (stub).
+//! C30 — composite aggregation paging is complete.
+//!
+//! One case = corpus, one segment layout, a composite request (1..3 terms/histogram sources over
+//! keyword and numeric fields incl. multi-valued, optional child aggregation), page size 1..5.
+//!
+//! * finder (implementation only): walk the aggregation by sending every `after_key` back as
+//!   `after`; the concatenated pages must equal the buckets of the unpaged request (same keys,
+//!   order, counts, children), every page but the last must be full and carry the key of its
+//!   last bucket, the last page (and the unpaged response) must carry no `after_key`; bucket
+//!   keys must be strictly increasing in the documented key order.
+//! * correspondence: the pages of `SL.Aggs.compositeWalk` (over the merged bucket map of the
+//!   mechanism model, `after_key` sent back through the JSON round trip of the model) vs the
+//!   implementation's pages; `partsLt` vs the order of adjacent keys in the implementation.
+use super::c12::{build_layout, cmp_parts, composite_parts_of_key, field_kinds, gen_doc, gen_layouts, is_i64, matches_query, parse_doc, Doc, F64_FIELDS, KW_FIELDS};
+use crate::idx;
 use crate::proto::Driver;
 use crate::rng::Rng;
 use crate::summary::Summary;
 use crate::{Prop, Tier};
 use serde_json::{json, Value};
+use std::collections::BTreeSet;
 
-pub struct Stub;
-pub static P: Stub = Stub;
+pub struct C30;
+pub static P: C30 = C30;
 
-impl Prop for Stub {
+fn composite_resp(reader: &searchlite_core::api::IndexReader, query: &Value, agg: &Value) -> Result<Value, String> {
+  let req = json!({"query": query, "limit": 1, "aggs": {"c": agg}});
+  match idx::search(reader, &req) {
+    idx::Outcome::Ok(v) => Ok(v["aggregations"]["c"].clone()),
+    idx::Outcome::Err(e) => Err(format!("error: {e}")),
+    idx::Outcome::Panic(e) => Err(format!("panic: {e}")),
+  }
+}
+
+/// (key, doc_count, aggregations) of the buckets of a response
+fn buckets_of(resp: &Value) -> Vec<Value> {
+  resp["buckets"].as_array().cloned().unwrap_or_default()
+}
+
+fn model_key_json(agg: &Value, k: &Value) -> Value {
+  // {"p":[{"s":..}|{"q":"n/d"}]} → {"name": value}
+  let mut m = serde_json::Map::new();
+  let parts = k["p"].as_array().cloned().unwrap_or_default();
+  for (s, p) in agg["sources"].as_array().cloned().unwrap_or_default().iter().zip(parts.iter()) {
+    let v = if let Some(x) = p.get("s") {
+      x.clone()
+    } else {
+      let q = p["q"].as_str().unwrap_or("0/1");
+      let mut it = q.split('/');
+      let n: f64 = it.next().unwrap_or("0").parse().unwrap_or(f64::NAN);
+      let d: f64 = it.next().unwrap_or("1").parse().unwrap_or(1.0);
+      json!(n / d)
+    };
+    m.insert(s["name"].as_str().unwrap_or("").to_string(), v);
+  }
+  Value::Object(m)
+}
+
+fn keys_equal(a: &Value, b: &Value) -> bool {
+  match (a, b) {
+    (Value::Object(x), Value::Object(y)) => {
+      x.len() == y.len()
+        && x.iter().all(|(k, v)| match (v, y.get(k)) {
+          (Value::Number(p), Some(Value::Number(q))) => p.as_f64() == q.as_f64(),
+          (v, Some(w)) => v == w,
+          _ => false,
+        })
+    }
+    _ => a == b,
+  }
+}
+
+impl Prop for C30 {
   fn id(&self) -> &'static str {
     "C30"
   }
   fn rule(&self) -> &'static str {
-    "stub"
+    "case = (corpus of 1..20 docs, one random segment layout, composite request with 1..3 terms/histogram sources over keyword/f64/i64 single- and multi-valued fields, optional child aggregation, page size 1..5, match_all or term query); the aggregation is walked by sending each after_key back and compared with the unpaged request; non-trivial = the walk has at least two pages; distinct = distinct case JSON"
   }
-  fn count(&self, _tier: Tier) -> usize {
-    0
+  fn count(&self, tier: Tier) -> usize {
+    tier.pick(160, 5000)
   }
-  fn gen(&self, _rng: &mut Rng, _tier: Tier, _i: usize) -> Value {
-    json!(null)
+  fn gen(&self, rng: &mut Rng, _tier: Tier, _i: usize) -> Value {
+    let n = 1 + rng.below(20);
+    let negzero = rng.chance(1, 8);
+    let mut docs: Vec<Value> = (0..n).map(|d| gen_doc(rng, format!("d{d}"))).collect();
+    if negzero {
+      // exercise the −0.0 / +0.0 keys of histogram sources
+      for d in docs.iter_mut() {
+        if rng.chance(1, 3) {
+          d["f1"] = json!(-0.0);
+        } else if rng.chance(1, 3) {
+          d["f1"] = json!(0.0);
+        }
+      }
+    }
+    let layouts = gen_layouts(rng, &docs, 3);
+    let layout = layouts[2].clone();
+    let nsrc = 1 + rng.below(3);
+    let mut sources = Vec::new();
+    for i in 0..nsrc {
+      if rng.chance(1, 2) {
+        sources.push(json!({"type": "terms", "name": format!("s{i}"), "field": *rng.pick(&KW_FIELDS)}));
+      } else {
+        let f = if rng.chance(1, 10) { *rng.pick(&["i1", "i2"]) } else if negzero { "f1" } else { *rng.pick(&F64_FIELDS) };
+        sources.push(json!({"type": "histogram", "name": format!("s{i}"), "field": f, "interval": *rng.pick(&[0.25, 0.5, 1.0, 2.5, 5.0])}));
+      }
+    }
+    let mut agg = json!({"type": "composite", "sources": sources, "size": 1 + rng.below(5)});
+    if rng.chance(1, 3) {
+      agg["aggs"] = json!({"n": {"type": "value_count", "field": *rng.pick(&["i1", "f2"])}});
+    }
+    let query = if rng.chance(3, 4) { json!({"type": "match_all"}) } else { json!({"type": "term", "field": "k2", "value": *rng.pick(&["a", "b"])}) };
+    json!({"docs": docs, "layout": layout, "query": query, "agg": agg})
   }
-  fn run_case(&self, _drv: &mut Driver, _case: &Value, _s: &mut Summary) {}
+
+  fn run_case(&self, drv: &mut Driver, case: &Value, s: &mut Summary) {
+    let docs_json = case["docs"].as_array().cloned().unwrap_or_default();
+    let docs: Vec<Doc> = docs_json.iter().map(parse_doc).collect();
+    let query = &case["query"];
+    let agg = &case["agg"];
+    let size = agg["size"].as_u64().unwrap_or(1) as usize;
+    let built = match build_layout(&docs_json, &case["layout"]) {
+      Ok(b) => b,
+      Err(e) => {
+        s.case(case, false);
+        s.count("skipped:layout-build-error");
+        s.notes.push(format!("layout build error: {e}"));
+        return;
+      }
+    };
+    let reader = match built.index.reader() {
+      Ok(r) => r,
+      Err(e) => {
+        s.case(case, false);
+        s.fail("composite.reader-error", "reader() failed", case, json!(e.to_string()));
+        return;
+      }
+    };
+    // ---- implementation: unpaged
+    let mut unpaged_req = agg.clone();
+    unpaged_req["size"] = json!(100000);
+    let unpaged = match composite_resp(&reader, query, &unpaged_req) {
+      Ok(v) => v,
+      Err(e) => {
+        s.case(case, false);
+        s.fail("composite.search-error", "composite request failed", case, json!(e));
+        return;
+      }
+    };
+    let all = buckets_of(&unpaged);
+    // ---- implementation: walk
+    let mut pages: Vec<Value> = Vec::new();
+    let mut after: Option<Value> = None;
+    let max_pages = all.len() + 3;
+    let mut nonterminating = false;
+    loop {
+      let mut req = agg.clone();
+      if let Some(a) = &after {
+        req["after"] = a.clone();
+      }
+      let resp = match composite_resp(&reader, query, &req) {
+        Ok(v) => v,
+        Err(e) => {
+          s.case(case, false);
+          s.fail("composite.search-error", "composite page request failed", case, json!({"after": after, "error": e}));
+          return;
+        }
+      };
+      let ak = resp.get("after_key").cloned().filter(|k| !k.is_null());
+      pages.push(resp);
+      match ak {
+        Some(k) => after = Some(k),
+        None => break,
+      }
+      if pages.len() > max_pages {
+        nonterminating = true;
+        break;
+      }
+    }
+    let has_i64 = agg["sources"].as_array().map(|a| a.iter().any(|x| x["type"] == "histogram" && is_i64(x["field"].as_str().unwrap_or("")))).unwrap_or(false);
+    let negzero = docs_json.iter().any(|d| d["f1"].as_f64().map(|x| x == 0.0 && x.is_sign_negative()).unwrap_or(false));
+    s.case(case, pages.len() >= 2);
+    s.count(&format!("sources:{}", agg["sources"].as_array().map(|a| a.len()).unwrap_or(0)));
+    s.count(&format!("size:{size}"));
+    s.add("pages", pages.len() as u64);
+    s.add("buckets", all.len() as u64);
+    if has_i64 {
+      s.count("histogram-source-over-i64 (no buckets: C12 finding, paging holds vacuously)");
+    }
+    if negzero {
+      s.count("negzero-values");
+    }
+    if !all.is_empty() && all.len() % size == 0 {
+      s.count("last-page-exactly-full");
+    }
+
+    // ---- finder
+    if nonterminating {
+      s.fail("composite.walk-nonterminating", "sending after_key back never reaches a page without after_key", case, json!({"pages": pages.len(), "buckets": all.len()}));
+      return;
+    }
+    if unpaged.get("after_key").map(|k| !k.is_null()).unwrap_or(false) {
+      s.fail("composite.after-key-on-unpaged", "the unpaged response carries an after_key", case, unpaged.clone());
+    }
+    let walked: Vec<Value> = pages.iter().flat_map(buckets_of).collect();
+    if walked != all {
+      let keys = |bs: &Vec<Value>| -> Vec<Value> { bs.iter().map(|b| json!([b["key"], b["doc_count"]])).collect() };
+      s.fail(
+        "composite.walk-mismatch",
+        "the concatenated pages differ from the buckets of the unpaged aggregation (missing, duplicated, reordered or re-counted buckets)",
+        case,
+        json!({"walk": keys(&walked), "unpaged": keys(&all)}),
+      );
+    }
+    for (pi, p) in pages.iter().enumerate() {
+      let bs = buckets_of(p);
+      let last = pi + 1 == pages.len();
+      let ak = p.get("after_key").cloned().filter(|k| !k.is_null());
+      if last {
+        if bs.is_empty() && pi > 0 {
+          s.fail("composite.after-key-but-no-more", "a page advertised more buckets through after_key but the next page is empty", case, json!({"page": pi}));
+        }
+        if ak.is_some() {
+          s.fail("composite.after-key-on-last-page", "the last page carries an after_key", case, json!({"page": pi, "after_key": ak}));
+        }
+      } else {
+        if bs.len() != size {
+          s.fail("composite.page-not-full", "a page with after_key has fewer or more than `size` buckets", case, json!({"page": pi, "len": bs.len(), "size": size}));
+        }
+        if ak.as_ref() != bs.last().map(|b| &b["key"]) {
+          s.fail("composite.after-key-not-last-bucket", "after_key is not the key of the page's last bucket", case, json!({"page": pi, "after_key": ak, "last": bs.last().map(|b| b["key"].clone())}));
+        }
+      }
+    }
+    // keys strictly increasing: strings bytewise, numbers by total order, part by part
+    for w in all.windows(2) {
+      let (a, b) = (composite_parts_of_key(agg, &w[0]["key"]), composite_parts_of_key(agg, &w[1]["key"]));
+      if let (Some(a), Some(b)) = (a, b) {
+        if cmp_parts(&a, &b) != std::cmp::Ordering::Less {
+          s.fail("composite.key-order", "bucket keys of the unpaged response are not strictly increasing", case, json!({"a": w[0]["key"], "b": w[1]["key"]}));
+          break;
+        }
+      }
+    }
+
+    // ---- correspondence with the model
+    if negzero {
+      // the model's numbers are rationals: no signed zero; finder only
+      return;
+    }
+    let matched: BTreeSet<String> = docs.iter().filter(|d| matches_query(query, d)).map(|d| d.id.clone()).collect();
+    let segs: Vec<Vec<Value>> = built.segs.iter().map(|seg| seg.iter().filter(|i| matched.contains(&docs[**i].id)).map(|i| docs[*i].model_json(*i)).collect()).collect();
+    let m = drv.call("C30", json!({"op": "walk", "fields": field_kinds(), "segs": segs, "agg": agg}));
+    if m["ok"] != json!(true) {
+      s.disagree("composite.model-error", case, json!(null), m);
+      return;
+    }
+    let mpages = m["pages"].as_array().cloned().unwrap_or_default();
+    let view = |bs: Vec<Value>, ak: Option<Value>| -> Value { json!({"buckets": bs, "after": ak}) };
+    let imp_view: Vec<Value> = pages
+      .iter()
+      .map(|p| view(buckets_of(p).iter().map(|b| json!([b["key"], b["doc_count"]])).collect(), p.get("after_key").cloned().filter(|k| !k.is_null())))
+      .collect();
+    let mod_view: Vec<Value> = mpages
+      .iter()
+      .map(|p| {
+        view(
+          p["buckets"].as_array().cloned().unwrap_or_default().iter().map(|b| json!([model_key_json(agg, &b["key"]), b["count"]])).collect(),
+          if p["after"].is_null() { None } else { Some(model_key_json(agg, &p["after"])) },
+        )
+      })
+      .collect();
+    let same = imp_view.len() == mod_view.len()
+      && imp_view.iter().zip(mod_view.iter()).all(|(a, b)| {
+        let (ba, bb) = (a["buckets"].as_array().unwrap(), b["buckets"].as_array().unwrap());
+        ba.len() == bb.len() && ba.iter().zip(bb.iter()).all(|(x, y)| keys_equal(&x[0], &y[0]) && x[1] == y[1]) && keys_equal(&a["after"], &b["after"])
+      });
+    if !same {
+      s.disagree("composite.walk", case, json!(imp_view), json!(mod_view));
+      return;
+    }
+    // comparator: adjacent keys of the implementation are `lt` in the model
+    let part_json = |v: &Value| -> Value { v.clone() };
+    for w in all.windows(2).take(6) {
+      if let (Some(a), Some(b)) = (composite_parts_of_key(agg, &w[0]["key"]), composite_parts_of_key(agg, &w[1]["key"])) {
+        let r = drv.call("C30", json!({"op": "cmp", "a": a.iter().map(part_json).collect::<Vec<_>>(), "b": b.iter().map(part_json).collect::<Vec<_>>()}));
+        if r["ok"] != json!(true) || r["lt"] != json!(true) || r["gt"] != json!(false) {
+          s.disagree("composite.cmp", case, json!({"a": w[0]["key"], "b": w[1]["key"], "impl": "a before b"}), r);
+          return;
+        }
+      }
+    }
+  }
+
+  fn finish(&self, _tier: Tier, s: &mut Summary) {
+    s.notes.push("corpora with −0.0 values (1 in 8) are checked by the finder only: the model's numbers are rationals".into());
+  }
 }
